@@ -28,6 +28,24 @@ fn registry() -> Vec<CheckDef> {
         run: kvlib::c08::run,
         replay: kvlib::c08::replay,
         assumptions: &["the closed-form acceptance predicate is the oracle; it is cross-checked in both directions against brute-force enumeration of all tie orders of the textbook queue on every input of length <=4 (quick) / <=5 (thorough) over 3 ranks before any plan is judged"],
+    },
+    CheckDef {
+        id: "C12",
+        level: "exploration",
+        workers: 16,
+        rule: "proptest-generated (hash, secondary hash, shard count) from classes {edge hashes, primary/secondary image at a shard boundary +-1 (via the modular inverse of the mixer), colliding images, collision on the last shard, equal hashes, uniform} x shard counts 0..70 and {127,128,255,256,257,4096,65535,65536,65537,2^20}; four observation kinds (probe trace on an empty directory via get/touch/ReadOnlyCache, put on a fresh handle + find through other handles/front-ends, entry planted in secondary vs third shard, handle with skewed load estimates with copies in both shards); every case is non-trivial; distinct by hash of (hash, secondary, n, kind)",
+        run: kvlib::c12::run,
+        replay: kvlib::c12::replay,
+        assumptions: &["oracle: own SHA-256 + multiply-add + fixed-point scaling reimplementation, written from the documentation", "probe paths are observed through in-binary libc interposition (open attempts under the cache root)"],
+    },
+    CheckDef {
+        id: "C07",
+        level: "exploration",
+        workers: 16,
+        rule: "proptest-generated directory populations (0-12 files, mtimes from 6 slots days in the past so ties abound, each file unread / atime==mtime / atime>mtime, 0-2 stray subdirectories one of them non-empty) x capacity 0..n+1 x route {raw_cache::prune, plain set, plain put, sharded set, stacked ensure on a plain writer, stacked set on a sharded writer} x fresh or existing target key, with the trigger scripted to fire; non-trivial = maintenance had to evict AND the population had an mtime tie or a read-marked file at or before the last victim; distinct by hash of the generated case",
+        run: kvlib::c07::run,
+        replay: kvlib::c07::replay,
+        assumptions: &["oracle: DirExplainer (before listing as captured by the shim at opendir time / before snapshot, after snapshot) + the brute-force-validated clock-queue predicate of C08", "re-stamped files carrying identical new mtimes are accepted in any relative order", "tmpfs under /dev/shm, nanosecond timestamps"],
     }]
 }
 
@@ -57,6 +75,10 @@ fn worker(a: &[String]) -> i32 {
     let ctx = Ctx { tier, seed: a[2].parse().unwrap(), worker: a[3].parse().unwrap(), workers: a[4].parse().unwrap() };
     let reg = registry();
     let def = reg.iter().find(|d| d.id == id).expect("unknown check");
+    // panics of the library under test are caught and judged by the checks; keep stderr quiet
+    if std::env::var_os("VERIF_LOUD_PANICS").is_none() {
+        quiet_panics();
+    }
     let rep = (def.run)(&ctx);
     println!("KVREPORT {}", serde_json::to_string(&rep).unwrap());
     0
@@ -93,6 +115,9 @@ fn orchestrate(id: &str, tier: &str) -> i32 {
         }
     };
     let root = verif_root();
+    // VERIF_OUT_DIR redirects evidence and replay files (used when trying seeded mutants, so that
+    // the committed evidence always comes from the unchanged tree)
+    let out_root = std::env::var_os("VERIF_OUT_DIR").map(std::path::PathBuf::from).unwrap_or_else(|| root.clone());
     let exe = std::env::current_exe().unwrap();
     let n = std::env::var("VERIF_WORKERS").ok().and_then(|s| s.parse().ok()).unwrap_or(def.workers);
     let limit = Duration::from_secs(std::env::var("VERIF_TIMEOUT_S").ok().and_then(|s| s.parse().ok()).unwrap_or(if tier == "thorough" { 3 * 3600 } else { 1500 }));
@@ -170,7 +195,7 @@ fn orchestrate(id: &str, tier: &str) -> i32 {
         }
     }
 
-    let _ = std::fs::create_dir_all(root.join("replays"));
+    let _ = std::fs::create_dir_all(out_root.join("replays"));
     let mut replay_paths = Vec::new();
     let mut seen_sig = std::collections::BTreeSet::new();
     for v in &new_violations {
@@ -178,7 +203,7 @@ fn orchestrate(id: &str, tier: &str) -> i32 {
             continue;
         }
         let name = format!("{}-{:016x}.json", id, hash_str(&format!("{}{}", v.signature, v.replay)));
-        let path = root.join("replays").join(&name);
+        let path = out_root.join("replays").join(&name);
         let body = json!({"property": id, "signature": v.signature, "detail": v.detail, "case": v.replay});
         let _ = std::fs::write(&path, serde_json::to_string_pretty(&body).unwrap());
         replay_paths.push(path.clone());
@@ -216,8 +241,8 @@ fn orchestrate(id: &str, tier: &str) -> i32 {
         "violations": new_violations.len(),
         "known_findings_seen": known_hits.iter().map(|x| x.0.clone()).collect::<Vec<_>>(),
     });
-    let _ = std::fs::create_dir_all(root.join("evidence"));
-    std::fs::write(root.join("evidence").join(format!("{}.json", id)), serde_json::to_string_pretty(&evidence).unwrap()).expect("write evidence");
+    let _ = std::fs::create_dir_all(out_root.join("evidence"));
+    std::fs::write(out_root.join("evidence").join(format!("{}.json", id)), serde_json::to_string_pretty(&evidence).unwrap()).expect("write evidence");
     println!(
         "{} {}: {} evaluations, {} distinct non-trivial, {} violation(s), {:.1}s",
         id,
